@@ -217,6 +217,9 @@ def run_program(ctx, bt, spec):
 
 
 def run(ctx, bt):
+    from .. import whole_run as _W
+    # complete fixed-income backtests executed end to end by the model (ProgFI node functions: gate, WeighSpecified, SetNotional, Rebalance)
+    _W.fi_whole_run_protocol(ctx, bt, ctx.scale(25, 500), "whole-run-fi[C17]", footprint_fields=FOOT_FIELDS)
     from .. import gen_engine as _G
     run_engine_protocol(ctx, bt, ctx.scale(25, 400), [Monitor(ctx)], FOOT_FIELDS, None, spec_kwargs={"fi_tree": True},
                         spec_mutator=_G.carry_open_close, corr_name="step[C17]:carry-open-close")
